@@ -5,6 +5,14 @@ format(), rjust ... of the same spec are one node; concatenation adds widths; st
 columns of the rendering, verifier/c12_model.py) with the float parameter confined to an interval that every comparison splits
 (verifier/c12_exec.py), so an if/elif ladder, its inverted form, early returns and a loop over a literal (bound, spec) table give the same
 leaves (interval, rendering).  The card writers are evaluated per field position, the readers on symbols (verifier/c12_cards.py).
+
+Helpers are *followed*, not named: a call to a plain function of the module (or to a function / lambda defined in the frame under evaluation)
+is evaluated on the argument values and continues the caller's path - interval, recorded tests, written text, lines taken from the iterator -
+under the rule's own hooks; every path through the callee is a path of the caller (c12_exec: `inline=`).  So it does not matter where a piece
+of a formatter, writer or reader lives or what it is called.  The file, the line iterator and the current line are recognised by *value*
+(the object passed in, whatever a helper calls it); the place where rdcards hands a line to the readers is found by the call graph.
+Named anchors that remain are those of the property text: format_float8/16, format_double16, _format_scientific8/16, nas_sscanf, wtcard8/16/16d,
+rdcards, _rdfixed, _rdcomma.
 """
 from __future__ import annotations
 
@@ -233,7 +241,7 @@ from .c12_cards import r3_card_grid  # noqa: E402
 from .c12_parse import r4_parse_back  # noqa: E402
 
 RULES = [
-    ("C12-R3", r3_card_grid, 150),
+    ("C12-R3", r3_card_grid, 190),
     ("C12-R4", r4_parse_back, 45),
     ("C12-R1", r1_ladder, 190),
     ("C12-R1b", r1b_integer_arm, 2),
@@ -246,7 +254,8 @@ EXPLANATION = ("Static analysis on values. format_float8/16 are evaluated on abs
                "replace / justify / slice: every decade in which fixed notation is the more precise form is rendered fixed with all W columns "
                "used, the carry case fits, arms that print a rounded value are reached only where the rounding fits, every return is W wide. "
                "The scientific helpers fill exactly W for both signs, both exponent signs and 1-3 exponent digits with >= 2 digits of "
-               "two-stage margin. The card writers are evaluated on symbolic cards and parsed on the 8 + k*W / 72 column grid; _rdfixed is "
+               "two-stage margin. Calls to other functions of the module are followed on their argument values, so helpers may be "
+               "extracted or inlined freely. The card writers are evaluated on symbolic cards and parsed on the 8 + k*W / 72 column grid; _rdfixed is "
                "evaluated on that text and _rdcomma on the comma forms and must return the fields one for one; nas_sscanf is evaluated on an "
                "instance of every class of text the formatters emit.")
 MANIFEST = {
